@@ -163,3 +163,41 @@ fn c03_overlap_gc_between_non_default_levels() {
     kani::cover!(s.mask == 0b11 && !same);
     std::mem::forget(s);
 }
+
+//@ property: C03
+//@ tier: quick
+//@ cap_s: 600
+//@ stubs: parking_lot slow paths, alloc::fmt::format
+//@ encodes: TransactionManager::{begin_with_isolation,record_write,commit,gc,state}
+//@ symbolic: both entities (nodes, all 64 id bits each), isolation levels
+//@ bound: history  begin T1; write(T1,e1); commit T1; begin T0 (starts exactly at T1's commit epoch); gc (T0 is the oldest active transaction); write(T0,e0); commit T0
+//@ oracle: T1 committed before T0 began: T0 is accepted, with or without the clean-up running while T0 is active (the equality boundary commit epoch == oldest active start epoch)
+hist!(c03_sequential_gc_while_second_active, s, { s.b(1); s.w(1,1); s.c(1); s.b(0); s.g(); s.w(0,0); s.c(0); }, |m, same| m == 0b11 && same);
+
+//@ property: C03
+//@ tier: quick
+//@ cap_s: 600
+//@ mem_gb: 10
+//@ stubs: parking_lot slow paths, alloc::fmt::format
+//@ encodes: TransactionManager::{begin_with_isolation,record_write,commit,state}
+//@ symbolic: the isolation levels of both transactions (the contested node is concrete)
+//@ bound: history  begin T0; begin T1; write(T0,e); write(T1,e); commit T0; commit T1 (refused); commit T1 again (retry without abort); both write the SAME entity, so the refusal is certain
+//@ oracle: a refused commit leaves the loser exactly as it was: the retry is refused again with WriteConflict, the loser stays active, the winner's update is not lost
+#[kani::proof]
+#[kani::unwind(5)]
+#[kani::stub(parking_lot::RawRwLock::lock_exclusive_slow, lk_slow)]
+#[kani::stub(parking_lot::RawRwLock::lock_shared_slow, lk_sh_slow)]
+#[kani::stub(parking_lot::RawRwLock::unlock_exclusive_slow, ulk_slow)]
+#[kani::stub(parking_lot::RawRwLock::unlock_shared_slow, ulk_sh_slow)]
+#[kani::stub(alloc::fmt::format, fmt_stub)]
+fn c03_refused_commit_retry_same_entity() {
+    // the contested entity is concrete: with a symbolic id the (seeded) variants of commit() that move the sets around
+    // made symbolic execution run out of memory; the isolation levels stay symbolic
+    let e = EntityId::Node(grafeo_common::types::NodeId::new(7));
+    let ent = [e, e];
+    let mut s = Sim::new(&ent, [any_iso(), any_iso(), 1]);
+    s.b(0); s.b(1); s.w(0,0); s.w(1,1); s.c(0); s.c(1); s.c(1);
+    assert!(s.mask == 0b01);
+    kani::cover!(true);
+    std::mem::forget(s);
+}
